@@ -6,6 +6,7 @@ import SV.TxCache.SelProofs
 import SV.TxCache.OrderProofs
 import SV.TxCache.EvictInv
 import SV.TxCache.ReachableProofs
+import SV.GenProofs
 namespace SV.Props.C01
 open SV SV.TxCache
 
@@ -46,5 +47,16 @@ theorem nonce_run_of_every_reachable_pool (U : Bytes → Tx) (cfg : Config) (ops
     (hw : ∀ t, Op.add t ∈ ops → WfTx U t) (s : Session) (q : SelParams) (snd : Bytes) :
     ∃ k, noncesOf snd (select Variant.current (ops.foldl applyOp (Pool.init cfg)) s q).1 = List.range' (s.nonce snd) k :=
   reachable_nonce_run U cfg ops hw s q snd
+
+/-! ### tie by translation: the source's own leaf logic (regenerated into SV/Generated/Funcs.lean on every run) IS the model's -/
+theorem source_detectors_are_the_models (s : Session) (consumed : Bytes → Nat) (it : HItem) :
+    classify s consumed it =
+      (if Gen.initialGap it.latest.isNone it.cur.nonce (s.nonce it.cur.sender) then .dropSender
+       else if Gen.middleGap it.latest.isNone it.cur.nonce (it.latest.getD 0 : Nat) then .dropSender
+       else if decide (consumed it.cur.payer + it.cur.fee > s.balance it.cur.payer) then .dropSender
+       else if Gen.lowerNonce it.cur.nonce (s.nonce it.cur.sender) then .skipTx
+       else if s.badGuard it.cur then .skipTx
+       else if Gen.nonceDuplicate it.latest.isNone it.cur.nonce (it.latest.getD 0 : Nat) then .skipTx
+       else .take) := GenProofs.classify_uses_generated_detectors s consumed it
 
 end SV.Props.C01
